@@ -378,11 +378,8 @@ def drive_b(case):
     nw.get_node_restrictions, nw.select_edfa = wrap_r, wrap_s
     try:
         built = c09.build_case(case)
-        status = 'ok'
-        try:
-            c09.design(built)
-        except Exception as e:
-            status = f'E:{type(e).__name__}'
+        c09.design(built)
+        status = built['status']
     finally:
         nw.get_node_restrictions, nw.select_edfa = orig_r, orig_s
     return built, obs, status
@@ -417,26 +414,30 @@ def neigh_lit(nv, roadm_lib):
 
         def one(key):
             src = el[key] if key in el else lib.get(key, [])
-            return listlit([strlit(x) for x in src])
+            return slist([x for x in src])
         return f"(roadm {one('booster_variety_list')} {one('preamp_variety_list')})"
     if nv['kind'] == 'fiber':
         return f"(fiber {listlit([qlit(x) for x in nv['loss_coef']])})"
     return 'NOther'
 
 
-def term_b(rec, views, roadm_lib, maxl):
-    vs = []
-    for v in views:
-        v = dict(v)
-        v['nf'] = rec.get('nf', {}).get(v['name'], 0.0)
-        vs.append(v)
-    return (f"run_node (mkNode {strlit(rec['variety'])} {listlit([strlit(x) for x in rec['vlist']])}) "
-            f"{neigh_lit(rec['pv'], roadm_lib)} {neigh_lit(rec['nv'], roadm_lib)} {qlit(rec['band'][0])} {qlit(rec['band'][1])} "
-            f"{qlit(maxl)} {qlit(rec.get('gain', 0.0))} {qlit(rec.get('power', 0.0))} {qlit(rec.get('ext', 0.0))} "
-            f"{listlit([am_lit(v) for v in vs])}")
+def call_b(rec, roadm_lib):
+    nfs = listlit([f"nfv {strlit(n)} {qlit(v)}" for n, v in rec.get('nf', {}).items()])
+    return (f"ncall (mkNode {strlit(rec['variety'])} {slist([x for x in rec['vlist']])}) "
+            f"{neigh_lit(rec['pv'], roadm_lib)} {neigh_lit(rec['nv'], roadm_lib)} "
+            f"{qlit(rec['band'][0])} {qlit(rec['band'][1])} {qlit(rec.get('gain', 0.0))} {qlit(rec.get('power', 0.0))} {qlit(rec.get('ext', 0.0))} {nfs}")
 
 
-# ------------------------------------------------------------------ run
+def term_b(recs, views, roadm_lib, maxl):
+    """one term per network: shared library / band / Raman limit, one call per amplifier node"""
+    return (f"run_nodes {listlit([amq_lit(v) for v in views])} {qlit(maxl)} "
+            f"{listlit([call_b(r, roadm_lib) for r in recs])}")
+
+
+def slist(xs):
+    return listlit([strlit(x) + '%string' for x in xs])
+
+
 def strip(c):
     return {k: v for k, v in c.items() if not k.startswith('_')}
 
@@ -498,11 +499,13 @@ def run(ctx):
                 ctx.count('B_nodes')
                 ctx.count('B_node_' + ('imposed' if rec['variety'] else 'auto'))
                 ctx.case({'uid': rec['uid'], 'net': c.get('seed')}, True)
-                terms.append(term_b(rec, views, built['roadm_lib'], built['max_lineic']))
-                meta.append(('B', rec, (views, built['roadm_lib'])))
-    lines = common.coq_eval('C10', 'Prelude Model.Select Run.C10', terms, per_file=120)
+            if obs and status != 'ok':
+                obs[-1]['_aborted'] = True
+            if obs:
+                terms.append(term_b(obs, views, built['roadm_lib'], built['max_lineic']))
+                meta.append(('B', obs, (views, built['roadm_lib'])))
+    lines = common.coq_eval('C10', 'Prelude Model.Select Run.C10', terms, per_file=ctx.scale(24, 60))
     for (kind, rec, extra), line in zip(meta, lines):
-        case = rec['_case'] if kind == 'B' else None
         if kind == 'A':
             parts = line.split(';')
             for r1, part in zip(rec, parts):
@@ -519,54 +522,8 @@ def run(ctx):
                 ctx.count('A_outcome_' + ('error' if isinstance(r1['out'], str) else 'selected'))
             continue
         views, roadm_lib = extra
-        rl, ra_s, sel = line.split('#', 2)
-        mod_restr = [x for x in rl.split(',') if x]
-        # oracle: permitted set recomputed from the generated inputs
-        exp, r = permitted_names(rec, views, roadm_lib, None)
-        impl_restr = rec['restrictions']
-        if impl_restr != exp:
-            ctx.violation('permitted_set', f"{rec['uid']}: get_node_restrictions {impl_restr} != permitted set {exp} "
-                          f"(applicable list {r})", case)
-        if impl_restr != mod_restr:
-            ctx.corr_break('corr:Select.node_restrictions', f"{rec['uid']}", case, impl=impl_restr, model=mod_restr)
-        if rec['variety']:
-            continue
-        if 'out' not in rec:
-            if impl_restr:
-                ctx.corr_break('corr:Select.auto_select', f"{rec['uid']}: select_edfa was not called", case)
-            else:
-                ctx.count('B_no_permitted_model')
-                if not sel.startswith('E:ConfigurationError'):
-                    ctx.corr_break('corr:Select.auto_select', f"{rec['uid']}: empty restrictions", case, model=sel)
-            continue
-        mod = parse_sel(sel)
-        if mod[0] != 'E' and mod[2] < TOL:
-            ctx.count('B_not_judged_threshold_tie')
-            continue
-        if (ra_s == 'T') != rec['ra']:
-            ctx.corr_break('corr:Select.raman_allowed', f"{rec['uid']}", case, impl=rec['ra'], model=ra_s)
-        # oracle on the pick
-        byname = {v['name']: v for v in views}
-        if sorted(rec['cands']) != sorted(n for n in exp if n in byname and not byname[n]['multi']):
-            ctx.violation('candidates', f"{rec['uid']}: select_edfa got {rec['cands']}, permitted {exp}", case)
-        ra_exp = rec['pv']['kind'] == 'fiber' and all(x < built_maxl(rec, case) * 1e-3 for x in rec['pv']['loss_coef'])
-        if ra_exp != rec['ra']:
-            ctx.violation('raman_allowed', f"{rec['uid']}: raman_allowed {rec['ra']} expected {ra_exp}", case)
-        orec = {'views': [dict(byname[n], nf=rec['nf'][n]) for n in rec['cands']], 'gain': rec['gain'],
-                'power': rec['power'], 'ext': rec['ext'], 'ra': rec['ra'], 'out': rec['out']}
-        for key, desc in oracle_select(orec):
-            ctx.violation(key, f"{rec['uid']}: {desc}", case, observed=rec['out'])
-        if not isinstance(rec['out'], str):
-            s = byname[rec['out'][0]]
-            if rec['out'][0] not in exp:
-                ctx.violation('not_permitted', f"{rec['uid']}: {rec['out'][0]} not in {exp}", case)
-            if not (s['f_min'] <= rec['band'][0] and s['f_max'] >= rec['band'][1]):
-                ctx.violation('band', f"{rec['uid']}: {rec['out'][0]} does not cover {rec['band']}", case)
-            if s['raman'] and not ra_exp:
-                ctx.violation('raman_only_if_allowed', f"{rec['uid']}: Raman model {rec['out'][0]}", case)
-        d = compare_sel(rec['out'], mod)
-        if d:
-            ctx.corr_break('corr:Select.auto_select', f"{rec['uid']}: {d}", case, impl=rec['out'], model=sel)
+        for r1, part in zip(rec, line.split(';')):
+            judge_b(ctx, r1, part, views, roadm_lib)
     ctx.assumptions += [
         'the noise figure of every candidate at the required gain is an input of the model, computed with '
         'gnpy.core.network.edfa_nf (the NF model is property C04); -inf (openroadm_booster) is represented by -1e6',
@@ -575,6 +532,61 @@ def run(ctx):
         'single-band selection must ignore',
     ]
     return common.finish(ctx)
+
+
+def judge_b(ctx, rec, line, views, roadm_lib):
+    case = rec['_case']
+    rl, ra_s, sel = line.split('#', 2)
+    mod_restr = [x for x in rl.split(',') if x]
+    # oracle: permitted set recomputed from the generated inputs
+    exp, r = permitted_names(rec, views, roadm_lib, None)
+    impl_restr = rec['restrictions']
+    if impl_restr != exp:
+        ctx.violation('permitted_set', f"{rec['uid']}: get_node_restrictions {impl_restr} != permitted set {exp} "
+                      f"(applicable list {r})", case)
+    if impl_restr != mod_restr:
+        ctx.corr_break('corr:Select.node_restrictions', f"{rec['uid']}", case, impl=impl_restr, model=mod_restr)
+    if rec['variety']:
+        return
+    if 'out' not in rec:
+        if impl_restr:
+            if rec.get('_aborted'):
+                ctx.count('B_design_aborted_before_selection')      # e.g. malformed delta_power_range_db (C09's subject)
+                return
+            ctx.corr_break('corr:Select.auto_select', f"{rec['uid']}: select_edfa was not called", case)
+        else:
+            ctx.count('B_no_permitted_model')
+            if not sel.startswith('E:ConfigurationError'):
+                ctx.corr_break('corr:Select.auto_select', f"{rec['uid']}: empty restrictions", case, model=sel)
+        return
+    mod = parse_sel(sel)
+    if mod[0] != 'E' and mod[2] < TOL:
+        ctx.count('B_not_judged_threshold_tie')
+        return
+    if (ra_s == 'T') != rec['ra']:
+        ctx.corr_break('corr:Select.raman_allowed', f"{rec['uid']}", case, impl=rec['ra'], model=ra_s)
+    # oracle on the pick
+    byname = {v['name']: v for v in views}
+    if sorted(rec['cands']) != sorted(n for n in exp if n in byname and not byname[n]['multi']):
+        ctx.violation('candidates', f"{rec['uid']}: select_edfa got {rec['cands']}, permitted {exp}", case)
+    ra_exp = rec['pv']['kind'] == 'fiber' and all(x < built_maxl(rec, case) * 1e-3 for x in rec['pv']['loss_coef'])
+    if ra_exp != rec['ra']:
+        ctx.violation('raman_allowed', f"{rec['uid']}: raman_allowed {rec['ra']} expected {ra_exp}", case)
+    orec = {'views': [dict(byname[n], nf=rec['nf'][n]) for n in rec['cands']], 'gain': rec['gain'],
+            'power': rec['power'], 'ext': rec['ext'], 'ra': rec['ra'], 'out': rec['out']}
+    for key, desc in oracle_select(orec):
+        ctx.violation(key, f"{rec['uid']}: {desc}", case, observed=rec['out'])
+    if not isinstance(rec['out'], str):
+        s = byname[rec['out'][0]]
+        if rec['out'][0] not in exp:
+            ctx.violation('not_permitted', f"{rec['uid']}: {rec['out'][0]} not in {exp}", case)
+        if not (s['f_min'] <= rec['band'][0] and s['f_max'] >= rec['band'][1]):
+            ctx.violation('band', f"{rec['uid']}: {rec['out'][0]} does not cover {rec['band']}", case)
+        if s['raman'] and not ra_exp:
+            ctx.violation('raman_only_if_allowed', f"{rec['uid']}: Raman model {rec['out'][0]}", case)
+    d = compare_sel(rec['out'], mod)
+    if d:
+        ctx.corr_break('corr:Select.auto_select', f"{rec['uid']}: {d}", case, impl=rec['out'], model=sel)
 
 
 def built_maxl(rec, case):
